@@ -122,6 +122,61 @@ func checkBodyReaderNeedsBody(p *Prog, r *Result, pkg *packages.Package, rule st
 		r.OK(rule, funcKey("syntax", fd)+"#reads input only with a here-document pending", fd.Pos(),
 			fmt.Sprintf("all %d calls into the parser are past the test that p.heredocs[p.buriedHdocs:] is not empty: callers need not test", reads))
 	}
+	// the other end: once the last body is read, nothing more is. Inside the loop over the pending bodies, no rune is
+	// read on a path from the store of a body (x.Hdoc = …) to the end of that iteration: the newline that ends the line
+	// of the stop word is consumed before the next body, if there is one, and otherwise left for the caller's next
+	// token — reading it would ask the reader for the byte after the line.
+	{
+		runeFn := lookupFunc(pkg, "Parser.rune")
+		after := ""
+		stores := 0
+		for _, b := range g.Blocks {
+			for i, nd := range b.Nodes {
+				as, ok := nd.(*ast.AssignStmt)
+				if !ok {
+					continue
+				}
+				isBody := false
+				for _, l := range as.Lhs {
+					if se, ok := ast.Unparen(l).(*ast.SelectorExpr); ok && se.Sel.Name == "Hdoc" {
+						isBody = true
+					}
+				}
+				if !isBody {
+					continue
+				}
+				stores++
+				reads := func(nd ast.Node) bool {
+					for _, c := range nodeCalls(nd) {
+						if calleeOf(info, c) == runeFn {
+							return true
+						}
+					}
+					return false
+				}
+				for _, later := range b.Nodes[i+1:] {
+					if reads(later) {
+						after = p.Position(later.Pos())
+					}
+				}
+				for rb := range g.Reachable(b, func(e *FEdge) bool { return !e.Back }) {
+					if rb == b {
+						continue
+					}
+					for _, nd2 := range rb.Nodes {
+						if reads(nd2) {
+							after = p.Position(nd2.Pos())
+						}
+					}
+				}
+			}
+		}
+		if stores > 0 {
+			n++
+			r.Check(after == "", rule, funcKey("syntax", fd)+"#nothing is read once the last body is stored", fd.Pos(), "no call of rune() between the store of a body and the end of that iteration: the newline after a stop word is consumed only on the way to a next body",
+				"doHeredocs reads a rune after storing a body, in the same iteration ("+after+"): after the last body that is the byte following the line of the stop word, which a pipe or terminal has not delivered yet — the statement is held back and called incomplete until another line arrives")
+		}
+	}
 	for _, cfd := range p.AllFuncDecls("syntax") {
 		if cfd.Body == nil {
 			continue
